@@ -742,6 +742,203 @@ def circuit_search(ctx):
     ctx.ob("C08_search_circuit", bad == 0, "search", f"{bad} failing circuits" if bad else "")
 
 
+# -- independence of the returned gates -----------------------------------------
+
+IND_HELP = (
+    "from qibo.gates.abstract import ParametrizedGate\n"
+    "def flat(gs):\n"
+    "    out = []\n"
+    "    for x in gs:\n"
+    "        if isinstance(x, (list, tuple)): out += flat(x)\n"
+    "        else:\n"
+    "            out.append(x)\n"
+    "            if hasattr(x, 'gates') and not isinstance(x, Circuit): out += flat(list(x.gates))\n"
+    "    return out\n"
+    "def ids(gs): return {id(x) for x in flat(gs)}\n"
+    "def snap(gs): return [(id(x), x.name, tuple(x.qubits), repr(tuple(getattr(x, 'parameters', ())))) for x in flat(gs)]\n"
+    "def mutate(gs, n):\n"
+    "    k = 0\n"
+    "    for x in flat(gs):\n"
+    "        if isinstance(x, ParametrizedGate):\n"
+    "            try:\n"
+    "                m = len(x.parameters)\n"
+    "                x.parameters = (0.37 + 0.1 * k) if m == 1 else tuple(0.37 + 0.1 * (k + j) for j in range(m))\n"
+    "                k += 1\n"
+    "            except Exception: pass\n"
+    "    try:\n"
+    "        c = Circuit(n); c.add(list(gs)); p = c.get_parameters(format='flatlist')\n"
+    "        if len(p): c.set_parameters([0.21 + 0.05 * i for i in range(len(p))])\n"
+    "    except Exception: pass\n"
+)
+_IND = {}
+
+
+def _ind():
+    """the helper functions of the replay snippets, executed once so that the check and the
+    replay run literally the same code."""
+    if not _IND:
+        exec(PRE + IND_HELP, _IND)
+    return _IND
+
+
+def independence_search(ctx):
+    """a decomposition must not hand out gate objects it will hand out again: call once, modify
+    the returned gates (`.parameters`, `Circuit.set_parameters`), call again on a fresh equal
+    gate and on the same gate object — the later results must be correct, share no gate object
+    with the first result, and must leave the first list as the user left it."""
+    from qibo import Circuit, gates
+
+    H = _ind()
+    flat, ids, snap, mutate = H["flat"], H["ids"], H["snap"], H["mutate"]
+    std = std_table()
+    bad = 0
+    rng = ctx.rng
+
+    def scenario(what, setup, mk, call, n, expected, exact, others=()):
+        """setup: python source defining `mk` (fresh equal input), `call`, `n`, `E` (expected
+        operator) and `exact`; mk/call/expected: the same objects for the in-process run."""
+        nonlocal bad
+        key = f"decompose:shared-objects:{what}"
+        code = (PRE + IND_HELP + "from qibo.transpiler.decompositions import standard_decompositions\n" + setup +
+                "ok = (lambda P: np.allclose(P, E, atol=1e-9)) if exact else (lambda P: same_up_to_phase(P, E))\n"
+                "g1 = mk(); first = call(g1)\nassert ok(prod(flat(first), n)), 'first call is wrong'\n"
+                "mutate(first, n); kept = snap(first)\n"
+                "second = call(mk()); third = call(g1)\n"
+                "assert ok(prod(flat(second), n)), 'decomposition of a fresh equal gate is wrong after the gates returned earlier were modified'\n"
+                "assert ok(prod(flat(third), n)), 'second decomposition of the same gate is wrong after the gates returned earlier were modified'\n"
+                "assert not (ids(first) & ids(second)) and not (ids(first) & ids(third)) and not (ids(second) & ids(third)), 'gate objects are shared between results'\n"
+                "assert snap(first) == kept, 'the list returned first was changed by a later call'\n"
+                + "".join(o[0] for o in others))
+        ctx.case(("independence", what))
+        try:
+            g1 = mk()
+            first = call(g1)
+            okf = (lambda P: np.allclose(P, expected, atol=1e-9)) if exact else (lambda P: qgates.phase_equal(P, expected))
+            if not okf(product(flat(first), n)):
+                return  # a wrong first call is the business of the other suites
+            mutate(first, n)
+            kept = snap(first)
+            second = call(mk())
+            third = call(g1)
+            problems = []
+            if not okf(product(flat(second), n)):
+                problems.append("the decomposition of a fresh equal gate is wrong after the gates returned earlier were modified")
+            if not okf(product(flat(third), n)):
+                problems.append("the second decomposition of the same gate object is wrong after the gates returned earlier were modified")
+            if (ids(first) & ids(second)) or (ids(first) & ids(third)) or (ids(second) & ids(third)):
+                sh = [x for x in flat(second) + flat(third) if id(x) in ids(first)]
+                problems.append("results of different calls share gate objects" + (f" (e.g. {qgates.gate_descr(sh[0])})" if sh else ""))
+            if snap(first) != kept:
+                problems.append("the list returned by the first call was changed by a later call")
+            for _, omk, ocall, oexp in others:
+                if not np.allclose(product(flat(ocall(omk())), n), oexp, atol=1e-9):
+                    problems.append("a different gate on part of the same register decomposes wrongly afterwards")
+        except Exception as e:
+            bad += 1
+            ctx.fail(f"{key}:raises", f"independence scenario for {what} raises {type(e).__name__}: {e}", code,
+                     observed=f"{type(e).__name__}: {e}", broken=["C08_search_independence"])
+            return
+        if problems:
+            bad += 1
+            ctx.fail(key, f"{what}: " + "; ".join(problems), code, observed="; ".join(problems),
+                     broken=["C08_search_independence"])
+
+    def mat_src(E):
+        return "np.array(" + repr(np.round(E, 12).tolist()) + ")"
+
+    # every decomposable class: decompose() and the table call, on a shuffled placement
+    for name, (info, own, intab) in decomposable_infos().items():
+        nq = info.nq
+        n = nq + 1
+        qs = rng.sample(range(n), nq)
+        vals = [round(rng.uniform(-3, 3), 3) for _ in range(info.np)]
+        try:
+            E = qgates.gate_full_matrix(info.make(qs, vals), n)
+        except Exception:
+            continue
+        expr = gate_expr(name, qs, vals)
+        calls = [(name, "g.decompose()", lambda g: g.decompose())]
+        if intab:
+            calls.append((f"table:{name}", "standard_decompositions(g)", lambda g: std(g)))
+        for what, src, fn in calls:
+            scenario(what, f"mk = lambda: {expr}\ncall = lambda g: {src}\nn = {n}\nE = full(mk(), n); exact = False\n",
+                     lambda info=info, qs=qs, vals=vals: info.make(qs, vals), fn, n, E, False)
+
+    # GeneralizedRBS (qubit-list constructor)
+    for qi, qo in (([0], [1]), ([2, 0], [1])):
+        n = len(qi) + len(qo)
+        th, ph = 0.6, -0.9
+        E = qgates.gate_full_matrix(gates.GeneralizedRBS(qi, qo, th, ph), n)
+        scenario(f"GeneralizedRBS_{len(qi)}_{len(qo)}",
+                 f"mk = lambda: gates.GeneralizedRBS({qi}, {qo}, {th}, {ph})\ncall = lambda g: g.decompose()\nn = {n}\nE = full(mk(), n); exact = False\n",
+                 lambda qi=qi, qo=qo: gates.GeneralizedRBS(qi, qo, th, ph), lambda g: g.decompose(), n, E, False)
+
+    # TOFFOLI.congruent, both flags, two placements
+    for qs in ((0, 1, 2), (3, 0, 2)):
+        n = max(qs) + 1
+        t = qs[2]
+        c0, c1 = sorted(qs[:2])
+        T = qgates.gate_full_matrix(gates.TOFFOLI(*qs), n)
+        D = np.eye(2**n)
+        for i in range(2**n):
+            b = [(i >> (n - 1 - q)) & 1 for q in range(n)]
+            if b[c0] == 1 and b[c1] == 0 and b[t] == 0:
+                D[i, i] = -1
+        for ut, E in ((True, T), (False, T @ D)):
+            scenario(f"TOFFOLI.congruent:{'toffoli' if ut else 'congruent'}",
+                     f"mk = lambda: gates.TOFFOLI(*{qs})\ncall = lambda g: g.congruent(use_toffolis={ut})\nn = {n}\nE = {mat_src(E)}; exact = True\n",
+                     lambda qs=qs: gates.TOFFOLI(*qs), lambda g, ut=ut: g.congruent(use_toffolis=ut), n, E, True)
+
+    # multi-controlled X with m >= 3 controls: ladder and splitting branches, shuffled labels
+    combos = [(3, 1), (4, 1), (4, 2), (5, 2)] + ([(5, 3), (6, 2)] if ctx.thorough else [])
+    for (m, f) in combos:
+        n = m + 1 + f
+        lab = list(range(n))
+        rng.shuffle(lab)
+        cs, t, fs = lab[:m], lab[m], lab[m + 1:]
+        perm = mcx_perm(n, cs, t)
+        E = np.zeros((2**n, 2**n)); E[perm, np.arange(2**n)] = 1
+        for ut in (True, False):
+            what = f"mcx:{'toffoli' if ut else 'congruent'}"
+            setup = (f"n = {n}; cs = {cs}; t = {t}; free = {fs}\nmk = lambda: gates.X(t).controlled_by(*cs)\n"
+                     f"call = lambda g: g.decompose(*free, use_toffolis={ut})\n"
+                     "idx = np.arange(2**n); allc = np.ones(2**n, bool)\n"
+                     "for q in cs: allc &= ((idx >> (n-1-q)) & 1).astype(bool)\n"
+                     "E = np.zeros((2**n, 2**n)); E[np.where(allc, idx ^ (1 << (n-1-t)), idx), idx] = 1; exact = True\n")
+            # a different gate on part of the same register, decomposed after the mutation
+            cs2, t2, fs2 = sorted(cs)[:3], fs[-1], [t]
+            perm2 = mcx_perm(n, cs2, t2)
+            E2 = np.zeros((2**n, 2**n)); E2[perm2, np.arange(2**n)] = 1
+            osrc = (f"cs2 = {cs2}; t2 = {t2}; allc = np.ones(2**n, bool)\n"
+                    "for q in cs2: allc &= ((idx >> (n-1-q)) & 1).astype(bool)\n"
+                    "E2 = np.zeros((2**n, 2**n)); E2[np.where(allc, idx ^ (1 << (n-1-t2)), idx), idx] = 1\n"
+                    f"assert np.allclose(prod(gates.X(t2).controlled_by(*cs2).decompose(*{fs2}, use_toffolis={ut}), n), E2, atol=1e-9), "
+                    "'a different gate on part of the same register decomposes wrongly afterwards'\n")
+            others = [(osrc, lambda cs2=cs2, t2=t2: gates.X(t2).controlled_by(*cs2),
+                       lambda g, fs2=fs2, ut=ut: g.decompose(*fs2, use_toffolis=ut), E2)]
+            scenario(what, setup, lambda cs=cs, t=t: gates.X(t).controlled_by(*cs),
+                     lambda g, fs=fs, ut=ut: g.decompose(*fs, use_toffolis=ut), n, E, True, others=others)
+
+    # Circuit.decompose: the returned circuit's gates are the user's
+    for it in range(4 if ctx.thorough else 2):
+        n = 6
+        free = [5] if it % 2 == 0 else [0, 3]
+        work = [q for q in range(n) if q not in free]
+        lab = rng.sample(work, 4)
+        recipe = [f"gates.X({lab[3]}).controlled_by({lab[0]}, {lab[1]}, {lab[2]})",
+                  f"gates.CRY({lab[1]}, {lab[0]}, 0.7)", f"gates.U3({lab[2]}, 0.3, -1.2, 2.1)",
+                  f"gates.RXXYY({lab[0]}, {lab[3]}, -0.8)", f"gates.H({lab[1]}).controlled_by({lab[2]})",
+                  f"gates.RZ({lab[0]}, 1.9)"]
+        build = f"def mk():\n    c = Circuit({n})\n" + "".join(f"    c.add({r})\n" for r in recipe) + "    return c\n"
+        loc = {}
+        exec("from qibo import Circuit, gates\n" + build, loc)
+        E = product(loc["mk"]().queue, n)
+        scenario("Circuit.decompose", build + f"call = lambda c: list(c.decompose(*{free}).queue)\nn = {n}\nE = prod(mk().queue, n); exact = False\n",
+                 loc["mk"], lambda c, free=free: list(c.decompose(*free).queue), n, E, False)
+    ctx.ob("C08_search_independence", bad == 0, "search", f"{bad} failing scenarios" if bad else "")
+
+
+
 def run(ctx):
     MODULES, THEOREMS = registry(PROP)
     ctx.theorems = THEOREMS
@@ -753,5 +950,6 @@ def run(ctx):
     congruent_search(ctx)
     grbs_search(ctx)
     circuit_search(ctx)
+    independence_search(ctx)
     ctx.trusted.append("the multi-controlled-X recursion is a hand model (QV/Model/XDecompose.lean) tied by exact gate-list equality with the real X.decompose for all m ≤ 7 (8 thorough), |free| ≤ m+1, permuted labels, both use_toffolis values, on every run")
     ctx.notes.append("per class with a decomposition: kernel obligations 'product of the real decompose() on symbolic parameters = phase • matrix' on ascending, descending, non-adjacent placements (and after a parameter update); numeric search over a parameter grid (0, ±π/2, ±π, 2π, …) × every placement in n ≤ 4 for decompose() and standard_decompositions(); controlled_by gates of every class; MCX exact unitaries through the real engine for m ≤ 7/8 with 0..m+1 free qubits; TOFFOLI.congruent; GeneralizedRBS up to 3+2 qubits; Circuit.decompose on random mixed circuits")
